@@ -42,6 +42,8 @@ func main() {
 		os.Exit(replayMain(os.Args[2:]))
 	case "selftest":
 		os.Exit(selftestMain(os.Args[2:]))
+	case "audit":
+		os.Exit(auditMain(os.Args[2:]))
 	default:
 		usage()
 	}
